@@ -279,6 +279,7 @@ def run(P, R, tier):
     forced_rule(P, R, tab)
     counter_rule(P, R, tab)
     retidy_rule(P, R)
+    sonewdef_rule(P, R)
     restore_rule(P, R)
 
 
@@ -571,3 +572,30 @@ def restore_rule(P, R):
                 R.ok("C04.restore", inst, "save (line %s) and restore in the same loop nest" % ",".join(str(s_[0]) for s_ in sv))
     if cnt < 20:
         R.anchor_missing("C04.restore", "only %d save/restore idioms found in the engine" % cnt)
+
+
+def sonewdef_rule(P, R):
+    """A SELECTED_OUTPUT 1 block that only switches options (-user_punch, -active, nothing at all) keeps the lists of the stored block;
+    one that names lists replaces it.  read_selected_output decides this with the new_def flag of the block *being read*: false at
+    the start, true as soon as a list option is read.  The same flag on the *stored* block means "headings still to be written" and is
+    forced on by do_run at every call boundary.  If the reader takes its flag from the stored block, whether a re-declaration keeps or
+    drops the lists depends on where the input was cut into calls.  Every Set_new_def on the block being read must have a literal
+    argument."""
+    RULE = "C04.sonewdef"
+    R.rule(RULE, "read_selected_output sets new_def of the block it reads from literals only (never from the stored block's flag)", minimum=20)
+    f = P.one("Phreeqc::read_selected_output")
+    n = 0
+    for c in T.calls(f["body"]):
+        if T.callee_q(c) != "SelectedOutput::Set_new_def" or not c[4]:
+            continue
+        n += 1
+        a = T.strip_casts(c[4][0])
+        inst = "Set_new_def@%d" % c[1]
+        if T.is_node(a) and a[0] == "Lit":
+            R.ok(RULE, inst, "literal")
+        else:
+            R.violation(RULE, inst, "the block being read takes new_def from `%s`: after a call boundary (do_run marks every stored block new) a SELECTED_OUTPUT 1 re-declaration without "
+                        "list options replaces the stored block and its -totals / -molalities / ... columns disappear; inside one call it keeps them" % T.text(a)[:50],
+                        file=f["file"], line=c[1], function=f["q"])
+    if n < 20:
+        R.anchor_missing(RULE, "read_selected_output: only %d Set_new_def calls" % n)
